@@ -36,7 +36,7 @@ from vf.g import G, excluded, fin, skip
 
 ID = "C01"
 FUNCTIONS_ENCODED = [
-    "pyanalyze.implementation._sequence_common_getitem_impl (tuple, list; int and slice keys)",
+    "pyanalyze.implementation._sequence_common_getitem_impl (tuple, list, Sequence; int and slice keys; typed layouts and literal tuples / lists)",
     "pyanalyze.value.unpack_values",
     "pyanalyze.value._unpack_sequence_value",
     "pyanalyze.value.replace_known_sequence_value",
@@ -73,7 +73,7 @@ def _seq_value(data) -> SequenceValue:
 def prepare(template, data):
     global _SV, _DV
     get_checker()
-    if template == "h_dict_get":
+    if template in ("h_dict_get", "h_getitem_lit"):
         install_coarse_hash()
     if "layout" in data:
         _SV = _seq_value(data)
@@ -132,6 +132,37 @@ def h_getitem_int(key: int, k0: int, k1: int, k2: int) -> bool:
         # an error is reported although the subscript succeeds for these lengths
         return fin(False)
     return fin(rt[key] in tags(val))
+
+
+def h_getitem_lit(key: int, x: int, y: int, b: bool) -> bool:
+    """
+    post: _
+    """
+    # a literal tuple / list with symbolic payloads: the inferred literal equals the element Python yields
+    import collections.abc
+
+    data = G.case
+    kind = data["lit"]
+    rt = (x, "a", y, b, None)[: data["n"]]
+    typ = tuple
+    if kind == "list":
+        rt = list(rt)
+        typ = list
+    impl_typ = collections.abc.Sequence if data.get("as_sequence") else typ
+    vis = StubVisitor()
+    ctx = call_context({"self": KnownValue(rt), "obj": KnownValue(key)}, vis)
+    val = _ret(impl._sequence_common_getitem_impl(ctx, impl_typ))
+    n = len(rt)
+    if not (-n <= key < n):
+        if kind == "tuple" and not data.get("as_sequence"):
+            return fin(len(vis.errors) > 0)  # a literal tuple index out of range is reported
+        return skip()
+    if vis.errors:
+        return fin(False)
+    want = rt[key]
+    if not isinstance(val, KnownValue):
+        return fin(False)
+    return fin(type(val.val) is type(want) and (val.val is want or val.val == want))
 
 
 def h_getitem_slice(a: Optional[int], b: Optional[int], k0: int, k1: int, k2: int) -> bool:
@@ -373,6 +404,11 @@ def cases(tier: str, seed: int) -> List[Case]:
                     d2 = dict(data, step=st, lim=min(8, maxn + 1))
                     out.append(Case("h_getitem_slice", f"gs:{nm}:step{st}", d2, timeout=60 if quick else 300))
             out.append(Case("h_len", f"len:{nm}", data, timeout=t))
+    for kind in ("tuple", "list"):
+        for n in (1, 3, 5):
+            for as_seq in (0, 1):
+                out.append(Case("h_getitem_lit", f"gl:{kind}:{n}:{'seq' if as_seq else 'own'}",
+                                {"lit": kind, "n": n, "as_sequence": as_seq}, timeout=60 if quick else 180))
     # unpack shapes
     utl = 3 if quick else 5
     upost = 2 if quick else 4
